@@ -26,8 +26,10 @@ func TestExplore(t *testing.T) {
 	}
 	kf, _ := findings.Load(os.Getenv("RIG_KF"))
 	res := api.NewResult()
+	debugFacts = true
 	start := time.Now()
-	for i := 0; i < n; i++ {
+	from, _ := strconv.Atoi(os.Getenv("RIG_FROM"))
+	for i := from; i < from+n; i++ {
 		RunIndex(1, i, tier, res, kf)
 	}
 	fmt.Printf("evals=%d cycles=%d distinct=%d inconclusive=%d wall=%v\n", res.Evaluations, res.SimCycles, len(res.Distinct), res.Inconclusive, time.Since(start))
@@ -40,6 +42,9 @@ func TestExplore(t *testing.T) {
 		fmt.Printf("  %-60s %d\n", k, res.Counters[k])
 	}
 	for _, v := range res.Violations {
-		fmt.Printf("VIOL %s kf=%q run=%d: %s\n   %s\n", v.Class, v.KnownFinding, v.RunIndex, v.Detail, string(v.Replay))
+		fmt.Printf("VIOL %s kf=%q run=%d: %s\n", v.Class, v.KnownFinding, v.RunIndex, v.Detail)
+		if os.Getenv("RIG_PAYLOAD") != "" {
+			fmt.Printf("   %s\n", string(v.Replay))
+		}
 	}
 }
